@@ -187,9 +187,10 @@ func (s *Store) persist(higher Snapshot, persistOptions StorePersistOptions) (
 	if s.refs <= 0 {
 		// The store was closed while this round was in flight; nobody
 		// would ever release a footer installed now.
+		// The round itself is complete in the file, which stays.
 		s.m.Unlock()
 		footer.DecRef()
-		return onError(ErrClosed)
+		return nil, ErrClosed
 	}
 	footer.AddRef() // One ref-count will be held by the store.
 	prevFooter := s.footer
